@@ -349,6 +349,12 @@ func (r *run) blacklistNow(id peer.ID) {
 		r.px.Add(id) // the time-cached implementation locks internally
 	}
 	r.x("bladd", nil)
+	if r.sc.How == "both" {
+		// the peer is already in the blacklist (Add of the time-cached implementation will
+		// return false): BlacklistPeer must clean up all the same
+		r.px.setHow("api")
+		r.do(M{"a": "blacklist", "p": victim})
+	}
 }
 
 func (r *run) scenario() {
@@ -392,7 +398,11 @@ func (r *run) scenario() {
 	// ---- the blacklisting
 	w.NUT.VerifEval(func() { r.capQ = w.NUT.VerifPeerQueue(vid) })
 	r.capOK = true
-	r.px.setHow(sc.How)
+	if sc.How == "both" {
+		r.px.setHow("direct")
+	} else {
+		r.px.setHow(sc.How)
+	}
 	if sc.Stage == "arrived" {
 		// park the loop, let the RPC carrying the message be read off the stream (it waits in
 		// front of the loop), add to the blacklist on the loop goroutine, let the loop go
